@@ -79,15 +79,28 @@ func (ww *conversionVisitor) resolveType(ref *sourcewalk.RefNode) (*TypeRef, err
 	if ref.Inline {
 		// Inline conversions will already exist, they were converted from
 
+		var inline *TypeRef
 		if ref.InlineEnum != nil {
-			return enumTypeRef(ref.InlineEnum), nil
+			inline = enumTypeRef(ref.InlineEnum)
 		} else if ref.InlineOneof != nil {
-			return oneofTypeRef(ref.InlineOneof), nil
+			inline = oneofTypeRef(ref.InlineOneof)
 		} else if ref.InlineObject != nil {
-			return objectTypeRef(ref.InlineObject), nil
+			inline = objectTypeRef(ref.InlineObject)
 		} else {
 			return nil, fmt.Errorf("unhandled inline conversion")
 		}
+		// The type lives in the file being written and is named relative to
+		// its package. A relative 'Foo.Foo' inside message Foo is looked up
+		// in the nested Foo by protobuf's scoping rules and not found, such
+		// names are given in full.
+		parts := strings.Split(inline.Name, ".")
+		for _, part := range parts[1:] {
+			if part == parts[0] {
+				inline.Package = ww.file.fdp.GetPackage()
+				break
+			}
+		}
+		return inline, nil
 	}
 
 	typeRef, err := ww.root.resolveTypeNoImport(ref.Ref)
